@@ -241,6 +241,38 @@ def check_moved_timeline(case, total=8):
     return []
 
 
+PORT_NAMES = ['s', 'a', 'b', 'g', 'lo', 'al', 'glob', 'globe', 'membrane']
+
+
+def check_port_name(port):
+    """the timeline declares a port for every port name its events use (whatever the name), so that it can be wired and its events
+    reach the wired store"""
+    events = [(1, {(port, 'x'): 5}), (2, {(port, 'y'): 6})]
+    try:
+        tl = TimelineProcess({'timeline': copy.deepcopy(events), 'time_step': 1.0})
+        if port not in tl.ports():
+            return ['TimelineProcess.ports() is %r for events on port %r' % (sorted(tl.ports()), port)]
+
+        class Hold(Process):
+            defaults = {'timestep': 100.0}
+
+            def ports_schema(self):
+                return {'s': {v: {'_default': 0, '_updater': 'set', '_emit': True} for v in ('x', 'y')}}
+
+            def next_update(self, timestep, states):
+                return {}
+        eng = Engine(processes={'timeline': tl, 'hold': Hold()},
+                     topology={'timeline': {'global': ('global',), port: ('deep', 'store')}, 'hold': {'s': ('deep', 'store')}},
+                     display_info=False, emitter='null')
+        eng.update(4)
+        got = eng.state.get_value()['deep']['store']
+    except Exception as e:
+        return ['timeline with events on port %r: %s: %s' % (port, type(e).__name__, str(e)[:160])]
+    if (got['x'], got['y']) != (5, 6):
+        return ['events on port %r wired to deep/store: x, y are %r, %r after the run, the events set 5 and 6' % (port, got['x'], got['y'])]
+    return []
+
+
 def ser(events):
     return [[t, [[list(k), v] for k, v in ch.items()]] for t, ch in events]
 
@@ -256,6 +288,10 @@ def main():
     a = ap.parse_args()
     if a.replay:
         d = json.load(open(a.replay))['scenario']
+        if 'port' in d:
+            fails = check_port_name(d['port'])
+            L.emit_result({'status': 'reproduced' if fails else 'not-reproduced', 'failed': fails})
+            return
         if 'moved' in d:
             fails = check_moved_timeline(d['moved'])
             L.emit_result({'status': 'reproduced' if fails else 'not-reproduced', 'failed': fails})
@@ -303,6 +339,15 @@ def main():
                 break
         if len(failures) >= 3:
             break
+    for port in PORT_NAMES:
+        if len(failures) >= 3:
+            break
+        evaluations += 1
+        distinct.add('port-' + port)
+        fails = check_port_name(port)
+        if fails:
+            rp = L.write_replay(a.out, 'C19', 'port-' + port, {'port': port}, fails, extra={'driver': 'bounded.c19'})
+            failures.append({'id': 'C19.bounded.port[%s]: %s' % (port, fails[0][:240]), 'replay': rp})
     for ci, case in enumerate(MOVED_CASES):
         if len(failures) >= 3:
             break
